@@ -184,8 +184,12 @@ let handle toks = match toks with
              for _ = 1 to int_of_nat step do t := !t *. decay done;
              (float_of_int (iz x) /. 4294967296.0) < exp (float_of_int (iz nxt - iz cur) /. !t) in
            let ms = if maxsteps = "-" then None else Some (nat_of_int (int_of_string maxsteps)) in
+           (* the seed token is either a seed or a whole generator state x:y:z:w (a run that continues the stream) *)
+           let st0 = (match String.split_on_char ':' seed with
+             | [x; y; z; w] -> { sx = zi x; sy = zi y; sz = zi z; sw = zi w }
+             | _ -> seed_state (zi seed)) in
            (match generate solver uniqueness score pretest penalty accept (fun q -> neighbours p q)
-                    (initial_of p) ms (solveinit = "1") 0 (seed_state (zi seed)) with
+                    (initial_of p) ms (solveinit = "1") 0 st0 with
             | Finished (r, e) ->
                 "OK " ^ (match r with Some q -> show_prob q | None -> "None") ^ " | " ^ show_state e.e_rng
                 ^ " | " ^ string_of_int e.e_world ^ " | "
